@@ -54,6 +54,11 @@ CLAIMED = {
         text="Muxer.tla models Route and Deliver as separate steps (the code releases the map lock between them), so TLC explores the unregister race; invariants: routed only to the registered receiver of (protocol, direction), in order, nothing after an error, the read loop never ends silently, zero length is an error. Real muxers are traced: every Recv must be the next segment the peer wrote (id, direction, length, content hash), the tapped wire bytes must be the Send events each in one piece, payload 1..65535, deliveries as the specification predicts for every enumerated inbound stream and diffusion mode.",
         note="fragmentation below the model's grain (exercised by the fragmenting conn); hashes are FNV-64; the race scenario is forced through the Route gate.",
         design_ref="§5 C09, Appendix C", engine="muxer"),
+    "C15": dict(
+        technique="TLA+ model of the blocking API layer over the engine's shutdown (ClientApi.tla), instantiated from a table whose deciding attributes are extracted from the tree under test (go/ast); TLC liveness per (API call, adversarial peer script); each case executed by a raw peer against the real client/server inside a real Connection",
+        text="Call/handler/cleanup goroutines, DoneChan closing only after recvLoop exits, handlers running inside recvLoop; liveness ConnEnded ~> CallReturned, CloseCalled ~> CloseReturned and ErrorChanClosed and NoGoroutines; TLC decides for every (API, script of <= 2-3 steps over correct / wrong-kind / forbidden / surplus reply, silence, truncation, malformed bytes, stalled reader, close) whether the call returns and what leaks; prediction and observation (return within a generous deadline, Close returns, ErrorChan closed, goroutine snapshot diff) must agree both ways.",
+        note="17 blocking calls of the 7 anchored files; a hang verdict needs deadline + peer wrote everything + two goroutine dumps showing the caller parked in the library; Leios/DMQ clients and client Stop() paths not in the table.",
+        design_ref="§5 C15", engine="clients"),
     "C16": dict(
         technique="TLA+ reference automata of all mini-protocols (MiniProtocols.tla) and product construction with the implementation's state maps as TLC constants (ProtoEquiv.tla, TB); TLC-emitted label sequences with one-step deviations replayed through the real engine in both roles",
         text="The product of each dumped implementation automaton (MatchFuncs evaluated on constructor-built messages) with the independent reference automaton is explored exhaustively: same agency and same enabled labels in every reachable product state, terminal iff terminal; all reference sequences up to a bound plus every one-step deviation are driven through protocol.New with the package's state map and codec by a raw peer sending real encodings.",
